@@ -49,6 +49,13 @@ MANIFEST = {
 }
 
 IMPORTS = ["Model.TriggerDef", "gen.Trigger_gen", "Model.Trigger", "Model.Cron"]
+# the boolean fields of Model/TriggerDef.v:facts (read back from the model when the translator is degraded)
+BOOL_FACTS = ["claim_guards_launch", "clear_after_launch", "per_occurrence", "or_runid_per_occurrence", "and_runid_joins_all",
+              "args_first_match", "mem_claim_locked", "sqlite_claim_immediate", "mem_cas_locked", "sqlite_cas_immediate",
+              "mem_cas_rejects_none", "sqlite_cas_rejects_none", "exc_ctx_has_invocation", "status_ctx_inv_and_status",
+              "cron_window_inclusive", "cron_min_interval_strict", "cron_first_poll_checked", "cron_storage_read_always",
+              "mem_source_filter_exact", "sqlite_source_filter_exact", "mem_pending_read_complete",
+              "sqlite_pending_read_complete"]
 KINDS = ["event", "status", "result", "exception", "cron"]
 STATUSES = ["RUNNING", "RETRY", "SUCCESS", "FAILED"]      # what the status conditions watch; o_aux of a status occurrence
 _EXC_CACHE: dict = {}
@@ -499,64 +506,106 @@ KNOWN_MULTI = {
 }
 
 
+BIG_BURST = 130          # more than any plausible built-in batch / page size (the configuration default is 100)
+
+
 def run_histories(ctx: Ctx, scratch: str):
     rng = ctx.rng
-    cases = []
+    cases = []             # (class, triggers, ops, configured max_events_batch_size or None)
     n_clean = 400 if ctx.thorough else 60
     n_multi = 200 if ctx.thorough else 30
+    n_burst = 60 if ctx.thorough else 10
+    ev = lambda n: ("occ", {"cid": 0, "src": n, "aux": 0, "n": n})      # noqa: E731
     # fixed witnesses first
-    cases.append(("multi", [{"conds": [0], "logic": "or", "prov": [0]}],
-                  [("occ", {"cid": 0, "src": 1, "aux": 0, "n": 1}), ("occ", {"cid": 0, "src": 2, "aux": 0, "n": 2}), ("iter",), ("iter",)]))
-    cases.append(("multi", [{"conds": [0], "logic": None, "prov": [0]}],
-                  [("occ", {"cid": 0, "src": 1, "aux": 0, "n": 1}), ("occ", {"cid": 0, "src": 2, "aux": 0, "n": 2}), ("iter",), ("iter",)]))
+    cases.append(("multi", [{"conds": [0], "logic": "or", "prov": [0]}], [ev(1), ev(2), ("iter",), ("iter",)], None))
+    cases.append(("multi", [{"conds": [0], "logic": None, "prov": [0]}], [ev(1), ev(2), ("iter",), ("iter",)], None))
     cases.append(("clean", [{"conds": [0, 1], "logic": "and", "prov": [0, 1]}],
-                  [("occ", {"cid": 0, "src": 1, "aux": 0, "n": 1}), ("iter",), ("occ", {"cid": 1, "src": 2, "aux": 0, "n": 2}), ("iter",), ("iter",)]))
+                  [ev(1), ("iter",), ("occ", {"cid": 1, "src": 2, "aux": 0, "n": 2}), ("iter",), ("iter",)], None))
+    # one invocation ends: its final status and its result / exception are two occurrences of two different conditions
+    cases.append(("clean", [{"conds": [1], "logic": None, "prov": [1]}, {"conds": [2], "logic": None, "prov": [2]}],
+                  [("fin", {"idx": 0, "src": 1, "ok": True, "aux": 0, "n": 1}), ("iter",), ("iter",)], None))
+    cases.append(("clean", [{"conds": [1], "logic": "or", "prov": [1]}, {"conds": [3], "logic": None, "prov": [3]}],
+                  [("fin", {"idx": 0, "src": 1, "ok": False, "aux": 1, "n": 1}), ("iter",), ("iter",)], None))
+    # bursts: small configured batch size; and, with the default configuration, more occurrences than any built-in bound
+    cases.append(("burst", [{"conds": [0], "logic": "or", "prov": [0]}], [ev(i) for i in range(1, 6)] + [("iter",), ("iter",)], 2))
+    cases.append(("burst", [{"conds": [0], "logic": "or", "prov": [0]}, {"conds": [5, 10], "logic": "and", "prov": [0]}],
+                  [("occ", {"cid": 5, "src": i, "aux": 0, "n": i}) for i in (1, 2)] + [("iter",), ev(3), ("iter",),
+                   ("occ", {"cid": 10, "src": 4, "aux": 0, "n": 4}), ("iter",), ("iter",)], 2))
+    cases.append(("burst", [{"conds": [0], "logic": "or", "prov": [0]}],
+                  [ev(i) for i in range(1, BIG_BURST + 1)] + [("iter",), ("iter",)], None))
+    if ctx.thorough:
+        cases.append(("burst", [{"conds": [0], "logic": None, "prov": [0]}, {"conds": [5, 10], "logic": "and", "prov": [0]}],
+                      [("occ", {"cid": 5, "src": i, "aux": 0, "n": i}) for i in range(1, BIG_BURST + 1)]
+                      + [("iter",), ev(BIG_BURST + 1), ("iter",), ("occ", {"cid": 10, "src": BIG_BURST + 2, "aux": 0, "n": BIG_BURST + 2}),
+                         ("iter",), ("iter",)], None))
+    fixed = len(cases)
+
+    def small_batch(i):     # every other generated case runs with a small configured batch size
+        return rng.choice([1, 2, 3]) if i % 2 else None
     while sum(1 for c in cases if c[0] == "clean") < n_clean:
         tr = gen_config(rng)
         if clean_config(tr):
-            cases.append(("clean", tr, gen_history(rng, tr, "clean")))
+            cases.append(("clean", tr, gen_history(rng, tr, "clean"), small_batch(len(cases))))
     while sum(1 for c in cases if c[0] == "multi") < n_multi:
         tr = gen_config(rng)
         if clean_config(tr):
-            cases.append(("multi", tr, gen_history(rng, tr, "multi")))
+            cases.append(("multi", tr, gen_history(rng, tr, "multi"), small_batch(len(cases))))
+    while sum(1 for c in cases if c[0] == "burst") < n_burst:
+        tr = gen_config(rng)
+        if clean_config(tr):
+            bsz = rng.choice([1, 2, 3, 4])
+            cases.append(("burst", tr, gen_burst(rng, tr, bsz), bsz))
     exprs = []
-    for klass, tr, ops in cases:
-        exprs.append(coq_case(tr, ops, False))
-        exprs.append(coq_case(tr, ops, True))
+    xops_of = []
+    for klass, tr, ops, bsz in cases:
+        xops = expand_ops(tr, ops)
+        xops_of.append(xops)
+        exprs.append(coq_case(tr, xops, False))
+        exprs.append(coq_case(tr, xops, True))
     vals = ctx.coq_eval(IMPORTS, exprs, chunk=120)
-    stats = {"clean": 0, "multi": 0, "launches": 0, "and_triggers": 0, "or_triggers": 0, "single_triggers": 0,
-             "multi_pending_rounds": 0}
+    stats = {"clean": 0, "multi": 0, "burst": 0, "launches": 0, "and_triggers": 0, "or_triggers": 0, "single_triggers": 0,
+             "finished_invocations": 0, "small_batch_cases": 0, "max_pending_before_an_iteration": 0}
     n_exec = 0
     sigs = {}
-    for ci, (klass, tr, ops) in enumerate(cases):
+    for ci, (klass, tr, ops, bsz) in enumerate(cases):
+        xops = xops_of[ci]
         for bi, kind in enumerate(("mem", "sqlite")):
             m_launch, m_pending, keys = vals[2 * ci + bi]
-            w = TrigWorld(kind, scratch, tr)
+            w = TrigWorld(kind, scratch, tr, batch=bsz)
             res = run_history_impl(w, ops)
             w.flush()
             n_exec += 1
-            impl = canon_impl(tr, ops, res, keys)
+            impl = canon_impl(tr, xops, res, keys)
             model = sorted(m_launch)
+            rp = {"kind": "history", "backend": kind, "trigs": tr, "ops": ops, "class": klass, "batch": bsz}
             if impl != model or len(res["pending"]) != len(m_pending):
+                short = impl if len(impl) <= 12 else f"{len(impl)} launches"
+                mshort = model if len(model) <= 12 else f"{len(model)} launches"
                 ctx.violation(f"history:{kind}:model-mismatch",
-                              f"{kind}: trigger history differs from the model: impl launches {impl} pending {len(res['pending'])}, "
-                              f"model launches {model} pending {len(m_pending)}",
-                              {"kind": "history", "backend": kind, "trigs": tr, "ops": ops, "impl": impl, "model": model})
-            for sig, msg in oracle_history(tr, ops, res):
+                              f"{kind}: trigger history (class {klass}, max_events_batch_size={bsz or 'default'}) differs from the "
+                              f"model: impl launches {short} pending {len(res['pending'])}, model launches {mshort} pending {len(m_pending)}",
+                              {**rp, "impl": impl[:40], "model": model[:40]})
+            for sig, msg in oracle_history(tr, xops, res):
                 sigs[sig] = sigs.get(sig, 0) + 1
-                key = f"history:{sig}" if klass == "clean" or sig not in KNOWN_MULTI else KNOWN_MULTI[sig]
-                ctx.violation(key, f"{kind}: {msg}",
-                              {"kind": "history", "backend": kind, "trigs": tr, "ops": ops, "class": klass, "why": msg})
+                key = f"history:{sig}" if klass != "multi" or sig not in KNOWN_MULTI else KNOWN_MULTI[sig]
+                if klass == "burst":
+                    key = f"burst:{sig}"
+                ctx.violation(key, f"{kind}: (class {klass}, max_events_batch_size={bsz or 'default'}) {msg[:600]}", {**rp, "why": msg[:600]})
             if kind == "mem":
                 stats[klass] += 1
                 stats["launches"] += len(res["launches"])
+                stats["finished_invocations"] += sum(1 for o in ops if o[0] == "fin")
+                stats["small_batch_cases"] += 1 if bsz else 0
+                stats["max_pending_before_an_iteration"] = max([stats["max_pending_before_an_iteration"]]
+                                                               + [r["pending_before"] for r in res["rounds"]])
                 for t in tr:
                     stats["or_triggers" if t.get("logic") == "or" else
                           ("single_triggers" if len(t["conds"]) == 1 else "and_triggers")] += 1
-                if ci in (0, 2) or (klass == "clean" and len(ctx.coverage["samples"]) < 4 and len(res["launches"]) > 2):
-                    ctx.sample({"class": klass, "trigs": tr, "ops": [o if o[0] != "occ" else ["occ", o[1]["cid"], o[1]["n"]] for o in ops][:10],
+                if ci in (0, 2, 3) or (klass == "clean" and ci >= fixed and len(ctx.coverage["samples"]) < 5 and len(res["launches"]) > 2):
+                    ctx.sample({"class": klass, "trigs": tr, "batch": bsz,
+                                "ops": [o if o[0] == "iter" or o[0] == "adv" else [o[0], o[1].get("cid", o[1].get("idx")), o[1]["n"]] for o in ops][:10],
                                 "launches": res["launches"][:6]})
-    ctx.count(n_exec, len({json.dumps([c[1], c[2]], sort_keys=True) for c in cases}))
+    ctx.count(n_exec, len({json.dumps([c[1], c[2], c[3]], sort_keys=True) for c in cases}))
     stats["oracle_signatures"] = sigs
     ctx.notes["histories"] = {"cases": len(cases), "executions": n_exec, **stats}
 
@@ -837,17 +886,17 @@ def run_two_loops(ctx: Ctx, scratch: str, facts: dict):
                     key = f"{kind}-claim-not-atomic"
                     what = (f"{kind}: two concurrent trigger loops both claim the same run id: loop B run at {where} "
                             f"(point {k0}) -> {got} launches for 2 (trigger, occurrence) pairs")
-                    predicted = not facts["sqlite_claim_immediate" if kind == "sqlite" else "mem_claim_locked"]
+                    predicted = not facts.get("sqlite_claim_immediate" if kind == "sqlite" else "mem_claim_locked", True)
                 elif name == "cron-first":
                     key = f"{kind}-cron-cas-accepts-none"
                     what = (f"{kind}: first cron tick fires in both loops (compare-and-swap with expected None always succeeds): "
                             f"loop B run at {where} (point {k0}) -> {got} launches for one scheduled minute")
-                    predicted = not facts[f"{kind}_cas_rejects_none"]
+                    predicted = not facts.get(f"{kind}_cas_rejects_none", True)
                 else:
                     key = f"{kind}-cron-cas-not-atomic"
                     what = (f"{kind}: cron compare-and-swap read and write are separable: loop B run at {where} (point {k0}) "
                             f"-> {got} launches for one scheduled minute")
-                    predicted = not facts["sqlite_cas_immediate" if kind == "sqlite" else "mem_cas_locked"]
+                    predicted = not facts.get("sqlite_cas_immediate" if kind == "sqlite" else "mem_cas_locked", True)
                 if any(g < want for _, _, g in doubles):
                     key += ":lost"
                 ctx.violation(key, what, {"kind": "two_loops", "scenario": name, "backend": kind, "k": k0, "where": where,
@@ -862,7 +911,7 @@ def run_two_loops(ctx: Ctx, scratch: str, facts: dict):
                         "claim": "sqlite_claim_immediate" if kind == "sqlite" else "mem_claim_locked",
                         "cron-first": f"{kind}_cas_rejects_none",
                         "cron-next": "sqlite_cas_immediate" if kind == "sqlite" else "mem_cas_locked"}[name]
-                if not facts[fact]:
+                if not facts.get(fact, True):
                     ctx.notes.setdefault("facts_false_but_no_schedule_found", []).append(f"{name}:{kind}:{fact}")
     ctx.count(n_runs, sum(v["points"] or 0 for v in summary.values()))
     ctx.notes["two_loops"] = summary
@@ -1101,6 +1150,101 @@ def run_cron(ctx: Ctx, scratch: str):
     ctx.notes["cron"] = {"cases": n_cases, "store_runs_per_backend": n_store, **stats}
 
 
+# ------------------------------------------------------------------ several runners, one store, cron
+def runner_polls_impl(scratch: str, expr: str, conf, last0, polls, n_runners: int):
+    """n runner processes = n app objects (each with its own trigger object and its own last-execution cache) on one
+    SQLite database; poll i is one trigger_loop_iteration of runner polls[i][0] at time polls[i][1].
+    Returns the launches per poll (summed over all runners, attributed to the poll during which they happened)."""
+    from pynenc.trigger.conditions.cron import CronCondition
+    cond = CronCondition(expr, check_window_seconds=conf[0], min_interval_seconds=conf[1],
+                         precision_tolerance_seconds=conf[2], strict_timing=conf[3])
+    trigs = [{"conds": [4], "logic": "or", "prov": [4], "cron": cond}]
+    ws = [TrigWorld("sqlite", scratch, trigs)]
+    for _ in range(n_runners - 1):
+        ws.append(TrigWorld("sqlite", scratch, trigs, app_id=ws[0].app.app_id, register=False))
+    if last0 is not None:
+        ws[0].trg.store_last_cron_execution(cond.condition_id, last0, None)
+    got = []
+    for r, ts in polls:
+        before = sum(len(w.launches) for w in ws)
+        CLOCK.t, CLOCK.tick = ts, timedelta(0)
+        ws[r].trg.trigger_loop_iteration()
+        got.append(sum(len(w.launches) for w in ws) - before)
+    ws[0].flush()
+    return got, cond
+
+
+def gen_runner_case(rng):
+    expr = rng.choice(["* * * * *", "* * * * *", "*/2 * * * *", "*/3 * * * *", "0-59/2 10-11 * * *", gen_expr(rng)])
+    conf = rng.choice([(60, 50, 30, False), (60, 50, 30, False), (120, 50, 30, False), (90, 0, 30, False), (60, 50, 30, True)])
+    n_run = rng.choice([2, 2, 3])
+    t = datetime(2031, 3, 4, 10, 0, 0, tzinfo=UTC) + timedelta(minutes=rng.randint(0, 30), seconds=rng.randint(1, 25))
+    style = rng.choice(["alternate", "random", "blocks", "rotate"])
+    polls = []
+    for i in range(rng.randint(8, 14)):
+        r = {"alternate": i % 2, "random": rng.randrange(n_run), "blocks": (i // 2) % n_run, "rotate": i % n_run}[style]
+        polls.append((r, t))
+        t += timedelta(seconds=rng.choice([20, 30, 60, 60, 60, 90, 120]), milliseconds=rng.choice([0, 0, 137]))
+    last0 = None if rng.random() < 0.6 else polls[0][1] - timedelta(seconds=rng.choice([30, 70, 200, 400]))
+    return expr, conf, last0, polls, n_run
+
+
+def check_runner_case(ctx: Ctx, scratch: str, case, model) -> int:
+    expr, conf, last0, polls, n_run = case
+    got, cond = runner_polls_impl(scratch, expr, conf, last0, polls, n_run)
+    rp = {"kind": "cron_runners", "expr": expr, "conf": list(conf), "last": last0.isoformat() if last0 else None,
+          "polls": [[r, t.isoformat()] for r, t in polls], "runners": n_run}
+    last = last0
+    for (r, ts), fired in zip(polls, got):
+        want, p = spec_fires(expr, conf, ts, last)
+        if fired != (1 if want else 0):
+            # known: inside the scheduled minute the window / tolerance is not consulted (cron-window-ignored-...)
+            if not (fired == 1 and p is not None and p == ts.replace(second=0, microsecond=0)):
+                ctx.violation(f"cron-runners:sqlite:{'extra' if fired > (1 if want else 0) else 'missing'}",
+                              f"sqlite, {n_run} runners with their own last-execution caches on one store: cron `{expr}` {conf}: poll "
+                              f"{ts.isoformat()} by runner {r} (scheduled minute {p}, last firing {last}) launched {fired}, the "
+                              f"statement says {1 if want else 0}; polls {[(a, b.strftime('%H:%M:%S')) for a, b in polls]} -> launches {got}", rp)
+        if fired:
+            last = ts
+    if model is not None and [min(g, 1) for g in got] != model:
+        ctx.violation("cron-runners:sqlite:model-mismatch",
+                      f"sqlite, {n_run} runners: cron `{expr}` {conf}: launches per poll {got}, model {model}",
+                      {**rp, "impl": got, "model": model})
+    return len(polls)
+
+
+def coq_runner_case(case) -> str:
+    expr, conf, last0, polls, n_run = case
+    lo = polls[0][1] - timedelta(seconds=conf[0] + 180)
+    c = "{| cw_window_s := %d; cw_min_interval_s := %d; cw_tolerance_s := %d; cw_strict := %s |}" % (
+        conf[0], conf[1], conf[2], "true" if conf[3] else "false")
+    sch = "(sched_of [%s])" % "; ".join(str(m) for m in sched_minutes(expr, lo, polls[-1][1]))
+    l0 = "None" if last0 is None else f"(Some {us(last0)})"
+    ps = "; ".join(f"({r}%nat, {us(t)})" for r, t in polls)
+    caches = "; ".join("None" for _ in range(n_run))
+    return f"map b2n (mr_polls {sch} gen_facts {c} {l0} [{caches}] [{ps}])"
+
+
+def run_cron_runners(ctx: Ctx, scratch: str):
+    rng = ctx.rng
+    m10 = datetime(2031, 3, 4, 10, 0, 10, tzinfo=UTC)
+    cases = [("* * * * *", (60, 50, 30, False), None, [(i % 2, m10 + timedelta(minutes=i)) for i in range(6)], 2),
+             ("*/2 * * * *", (60, 50, 30, False), m10 - timedelta(minutes=2),
+              [([0, 1, 1, 0, 0, 1, 0, 1][i], m10 + timedelta(minutes=i)) for i in range(8)], 2)]
+    for _ in range(80 if ctx.thorough else 14):
+        cases.append(gen_runner_case(rng))
+    vals = ctx.coq_eval(IMPORTS, [coq_runner_case(c) for c in cases], chunk=40, scope="Z_scope")
+    n = 0
+    fired = 0
+    for case, model in zip(cases, vals):
+        n += check_runner_case(ctx, scratch, case, model)
+        fired += sum(model)
+    ctx.count(n, len(cases))
+    ctx.notes["cron_runners"] = {"cases": len(cases), "polls": n, "model_fired": fired,
+                                 "runners": {k: sum(1 for c in cases if c[4] == k) for k in (2, 3)}}
+    ctx.sample({"cron_runners": cases[0][0], "polls": [[r, t.isoformat()] for r, t in cases[0][3]], "model": vals[0]})
+
+
 # ------------------------------------------------------------------ main / replay
 def main(ctx: Ctx) -> int:
     world.quiet()
@@ -1111,8 +1255,7 @@ def main(ctx: Ctx) -> int:
     ctx.prove("Props/C13.v")
     facts = info.get("facts")
     if facts is None:       # degraded translator: read the default facts back from the model
-        names = ["mem_claim_locked", "sqlite_claim_immediate", "mem_cas_locked", "sqlite_cas_immediate",
-                 "mem_cas_rejects_none", "sqlite_cas_rejects_none"]
+        names = BOOL_FACTS
         vals = ctx.coq_eval(IMPORTS, ["map b2n [" + "; ".join(f"f_{n} gen_facts" for n in names) + "]"])[0]
         facts = {n: bool(v) for n, v in zip(names, vals)}
     scratch = world.scratch_dir()
@@ -1125,6 +1268,8 @@ def main(ctx: Ctx) -> int:
         ctx.log("two-loop interleavings done")
         run_cron(ctx, scratch)
         ctx.log("cron done")
+        run_cron_runners(ctx, scratch)
+        ctx.log("cron with several runners done")
     finally:
         world.rm_scratch(scratch)
     ctx.assumptions += [
@@ -1155,13 +1300,15 @@ def replay(ctx: Ctx, path: str) -> int:
     scratch = world.scratch_dir()
     try:
         if rp["kind"] == "history":
-            w = TrigWorld(rp["backend"], scratch, rp["trigs"])
+            w = TrigWorld(rp["backend"], scratch, rp["trigs"], batch=rp.get("batch"))
             ops = [tuple(o) for o in rp["ops"]]
             res = run_history_impl(w, ops)
             w.flush()
+            print(f"store {rp['backend']}, max_events_batch_size {rp.get('batch') or 'default'}")
             for i, r in enumerate(res["rounds"]):
-                print(f"iteration {i}: pending before {r['pending_before']} launches {r['launches']} pending after {r['pending_after']}")
-            print("oracle:", oracle_history(rp["trigs"], ops, res))
+                ls = r["launches"] if len(r["launches"]) <= 8 else f"{len(r['launches'])} launches, first {r['launches'][:3]}"
+                print(f"iteration {i}: pending before {r['pending_before']} launches {ls} pending after {r['pending_after']}")
+            print("oracle:", [(a, b[:300]) for a, b in oracle_history(rp["trigs"], expand_ops(rp["trigs"], ops), res)])
         elif rp["kind"] == "two_loops":
             trigs = [{"conds": [0], "logic": "or", "prov": [0]}, {"conds": [0], "logic": None, "static": True}]
             cron_trigs = [{"conds": [4], "logic": "or", "prov": [4], "cron": CronCondition("* * * * *")}]
@@ -1180,6 +1327,16 @@ def replay(ctx: Ctx, path: str) -> int:
             else:
                 launches, info = runner(scratch, trigs if rp["scenario"] == "claim" else cron_trigs, setup, rp["k"])
             print("loop B run at", info, "-> launches", launches, "expected", rp["expected_launches"])
+        elif rp["kind"] == "cron_runners":
+            polls = [(r, datetime.fromisoformat(t)) for r, t in rp["polls"]]
+            last0 = datetime.fromisoformat(rp["last"]) if rp["last"] else None
+            got, _ = runner_polls_impl(scratch, rp["expr"], tuple(rp["conf"]), last0, polls, rp["runners"])
+            last = last0
+            for (r, ts), fired in zip(polls, got):
+                print(ts.isoformat(), "runner", r, "last firing", last, "-> launches", fired, "statement:",
+                      spec_fires(rp["expr"], tuple(rp["conf"]), ts, last))
+                if fired:
+                    last = ts
         elif rp["kind"] == "cron_sat":
             conf = rp["conf"]
             cond = CronCondition(rp["expr"], check_window_seconds=conf[0], min_interval_seconds=conf[1],
